@@ -1,6 +1,9 @@
 """Per-property configuration of the check driver: how to run, what counts as
 non-trivial (the 'rule' text of the evidence), coverage floors, level."""
 import os
+import sys
+sys.path.insert(0, os.path.dirname(os.path.abspath(__file__)))
+import c14 as c14mod
 
 NSHARDS = min(16, os.cpu_count() or 4)
 
@@ -296,5 +299,29 @@ PROPS = {
         "floors": {"any": {"runs_with_forced_ordering": 12, "runs_on_file_not_yet_created": 15, "runs_on_existing_file": 10, "runs_with_3_processes": 5,
                            "runs_in_which_an_opener_had_to_wait_for_another": 10}},
         "assumptions": ["flock is issued by a raw system call and cannot be gated itself; the libc calls on both sides of it are"],
+    },
+    "C14": {
+        "level": "other",
+        "rule": "cases = corpus programs (generated by c14/gen_corpus.py): 91 'reject' programs, one per (type, escape route) - KVPair / Data / "
+                "BucketName obtained through every public accessor and kept as itself, as a borrowed slice or as a clone past the end of the "
+                "transaction's scope and past commit; Bucket / Cursor / Range / Buckets / KVPairs handles kept past scope end and past commit; a Tx "
+                "past its DB; short-lived keys, values and bucket names; Tx / Bucket / Cursor / KVPair / Data moved or shared into another thread - each "
+                "must be rejected by rustc with one of the listed borrow / lifetime / Send error codes; 26 'twin' programs (the same programs carrying "
+                "owned copies) and 5 'accept' programs (ordinary usage incl. a cloned DB on four threads) must compile and run; 41 'generated' programs "
+                "carry every conversion the API offers (to_vec, Debug, to_bytes by value / by reference / of a clone ...) out of the transaction and "
+                "must be rejected or run clean. Every program that compiles is run: it ends its transaction, rewrites all data six times (page reuse) "
+                "and grows the file twice (remap; replaced maps become PROT_NONE), re-reading the carried value after each step. "
+                "non-trivial = reject program rejected with an expected code, or generated program that compiled and ran.",
+        "explanation": "The rejection half of this property is a compile-time fact: the only possible observation of it is to run the compiler, so the check "
+                       "runs rustc (cargo check) on each corpus program against the current tree and reads the diagnostics' error codes. The run-time half "
+                       "is a monitor: every program that does compile is executed as a probe with dead memory maps made inaccessible, so a value that "
+                       "still points into the mapped file faults (SIGSEGV) or is seen to change; the thorough tier repeats the probes under valgrind "
+                       "memcheck. 'All programs' is out of reach: the corpus is finite and recipe-driven; the public API surface is enumerated from "
+                       "rustdoc JSON only to report which items the corpus does not exercise.",
+        "run": c14mod.run,
+        "floors": {"any": {"reject_programs_rejected": 80, "twin_programs_compiled": 20, "accept_programs_compiled": 5, "probe_runs_clean": 50}},
+        "assumptions": ["rustc's verdict on the corpus program is taken as the observation of 'is a compile-time error'",
+                        "the corpus is finite; escape routes it does not contain are not judged"],
+        "crash_is_violation": False,
     },
 }
